@@ -1,10 +1,13 @@
 //! One module per property.
 use crate::infra::PropDef;
 
+pub mod common;
+pub mod qgen;
+pub mod c01;
 pub mod c04;
 
 pub fn all() -> &'static [PropDef] {
-    static ALL: &[PropDef] = &[c04::DEF];
+    static ALL: &[PropDef] = &[c01::DEF, c04::DEF];
     ALL
 }
 
